@@ -25,7 +25,7 @@ T = {
     "C06": ('exploration', 'model-based stateful testing of the broker (rapid op histories over scripted raw peers on in-memory connections) vs. subscription model with quiescence barriers; plus generated fan-out scenarios under back-pressure',
             "Generated histories of connect/subscribe/unsubscribe/publish over 1-6 raw peers are run against the real engine+memory backend; after each publish a marker barrier establishes quiescence and every peer's inbox is compared with the model (exactly the matching subscribers, once, intact, QoS of a matching filter). Fan-out under back-pressure: a stalled subscriber leaving while a publish waits behind it, and a client filling its own queue.",
             'in-memory transport instead of TCP; schedules of the concurrent phase are sampled', '4 C06, 9.6'),
-    "C07": ('fault_enumeration', 'generated publisher scripts x enumerated connection-fault positions x backend ack modes x publish window, judged on the recorded event history',
+    "C07": ('fault_enumeration', 'generated publisher scripts x enumerated connection-fault positions x backend ack modes x publish window x bystander, judged on the recorded event history; plus enumerated broker-side session-operation faults against a minimal accepting backend',
             'For every generated publisher script the connection is failed before/after every single packet the broker sends or receives (enumerated, not sampled) and the recorded history is judged: ack after acceptance, PUBREC after recording, QoS 2 accepted exactly once, every PUBREL answered.',
             'scripts bounded to depth 8 and 2 packet ids; ack modes sync/late/other goroutine/never; publish window default, 1 or 2', '4 C07, 9.6'),
     "C08": ("fault_enumeration", "generated subscriber scripts x enumerated fault positions on the subscriber connection; receiver-side protocol model + session probes",
